@@ -8,7 +8,7 @@ Two runs (labelled bounded, never counted as proved):
 (a) `repetitions-end`: every repetition form (closure, positive closure, join, gather and their positive forms) over
     elements and separators that can match the empty string ('a', ['a'], {'a'}, (), 'a'|(), /a*/) x ALL inputs up to
     the bound over {a , ' '}: each parse runs under a watchdog; the outcome is a value or a FailedParse with
-    0 <= pos <= len(text).  A parse that does not end within the watchdog limit is a `hang`.
+    0 <= pos <= len(text) whose message renders (str(e)).  A parse that does not end within the watchdog limit is a `hang`.
 (b) `meta-matchers`: the meta expressions @int @uint @float @bool @name, alone, behind optional text, as options of a
     choice and as closure elements x ALL inputs up to the bound over a digit, a non-ASCII decimal, '.', 'e', '-', '_',
     't' and a blank: the outcome is a value or a FailedParse (never ValueError or another python exception), the value has
@@ -90,6 +90,14 @@ def _position_ok(e, text):
     return isinstance(pos, int) and 0 <= pos <= len(text)
 
 
+def _renders(e):
+    """the error can be shown to the user: str(e) is the message with the source excerpt"""
+    try:
+        return isinstance(str(e), str), ''
+    except Exception as x:  # noqa: BLE001
+        return False, f'{type(x).__name__}: {x}'
+
+
 def _rep_work(chunk):
     stats = {'cases': 0, 'nontrivial': 0}
     failures = []
@@ -114,6 +122,9 @@ def _rep_work(chunk):
             elif how == 'fail' and not _position_ok(v, text):
                 failures.append({'witness': {'grammar': g, 'input': text}, 'cls': 'error-position-outside-the-text',
                                  'detail': f'{type(v).__name__} at pos={getattr(v, "pos", None)!r} for a text of length {len(text)}'})
+            elif how == 'fail' and not _renders(v)[0]:
+                failures.append({'witness': {'grammar': g, 'input': text}, 'cls': 'error-message-does-not-render',
+                                 'detail': f'str() of the {type(v).__name__} raised {_renders(v)[1]}'})
     return stats, failures[:12]
 
 
@@ -164,6 +175,8 @@ def _meta_work(chunk):
                 if not _position_ok(v, text):
                     failures.append({'witness': w, 'cls': 'error-position-outside-the-text',
                                      'detail': f'{type(v).__name__} at pos={getattr(v, "pos", None)!r}, text length {len(text)}'})
+                elif not _renders(v)[0]:
+                    failures.append({'witness': w, 'cls': 'error-message-does-not-render', 'detail': f'str() of the {type(v).__name__} raised {_renders(v)[1]}'})
                 continue
             val = v.get('v') if hasattr(v, 'get') else None
             if val is None:
